@@ -557,11 +557,13 @@ def numeric_campaign(ctx, props, want, n_quick, n_thorough, max_modes_quick=4, m
                 warm = observables_script(r, m, beta0, M, want=want, ngf=2, nchi=1, nsusc=1, ntriples=2)
                 s += warm
                 m.kinds.add("two_temperatures")
-            s += observables_script(r, m, beta, M, want=want, ngf=ngf, nchi=(nchi if M <= 3 else 1), nsusc=nsusc,
-                                    ntriples=(4 if M <= 3 else 2))
+            main_obs = observables_script(r, m, beta, M, want=want, ngf=ngf, nchi=(nchi if M <= 3 else 1), nsusc=nsusc,
+                                          ntriples=(4 if M <= 3 else 2))
+            s += main_obs
             if trunc:
                 eps = r.choice([0.0, 1e-12, 1e-6, 1e-3, 1e-2, 0.2])
-                obs6 = [l for l in s if l.split()[0] in ("gf", "susc", "chi")][:6]
+                # re-evaluated after the truncation: observables of the CURRENT temperature only
+                obs6 = [l for l in main_obs if l.split()[0] in ("gf", "susc", "chi")][:6]
                 s.append("trunc %s" % hx(eps))
                 s += obs6
                 if r.chance(1, 2):
